@@ -29,6 +29,7 @@ import (
 	"fmt"
 	"io"
 	"math"
+	"regexp"
 	"sort"
 	"sync/atomic"
 
@@ -56,6 +57,21 @@ type indexSearch struct {
 
 	deleted *uint64set.Set
 	tfs     []tagFilter
+
+	// promRegex: the condition comes from PromQL label matchers, whose regular expressions match the WHOLE label value
+	// (l=~"re" means ^(?:re)$); the printed InfluxQL text keeps the expression as written
+	promRegex bool
+}
+
+// tagRegex returns the expression a regular-expression tag condition is evaluated with.
+func (is *indexSearch) tagRegex(v *regexp.Regexp) *regexp.Regexp {
+	if !is.promRegex {
+		return v
+	}
+	if re, err := regexp.Compile("^(?:" + v.String() + ")$"); err == nil {
+		return re
+	}
+	return v
 }
 
 func (is *indexSearch) setDeleted(set *uint64set.Set) {
@@ -312,8 +328,9 @@ func (is *indexSearch) initTagFilter(name []byte, expr influxql.Expr, i int) err
 	case *influxql.StringLiteral:
 		err = tf.Init(name, []byte(key.Val), []byte(value.Val), n.Op != influxql.EQ, false)
 	case *influxql.RegexLiteral:
-		err = tf.Init(name, []byte(key.Val), []byte(value.Val.String()), n.Op != influxql.EQREGEX, true)
-		if regexMatchesEverything(value.Val) {
+		re := is.tagRegex(value.Val)
+		err = tf.Init(name, []byte(key.Val), []byte(re.String()), n.Op != influxql.EQREGEX, true)
+		if regexMatchesEverything(re) {
 			tf.SetRegexMatchAll(true)
 		}
 	default:
@@ -963,11 +980,12 @@ func (is *indexSearch) searchTSIDsByBinaryExpr(name []byte, n *influxql.BinaryEx
 			return nil, err
 		}
 	case *influxql.RegexLiteral:
-		err := tf.Init(name, []byte(key.Val), []byte(value.Val.String()), n.Op == influxql.NEQREGEX, true)
+		re := is.tagRegex(value.Val)
+		err := tf.Init(name, []byte(key.Val), []byte(re.String()), n.Op == influxql.NEQREGEX, true)
 		if err != nil {
 			return nil, err
 		}
-		if regexMatchesEverything(value.Val) {
+		if regexMatchesEverything(re) {
 			tf.SetRegexMatchAll(true)
 		}
 	case *influxql.VarRef:
@@ -1053,8 +1071,9 @@ func (is *indexSearch) seriesByBinaryExpr(name []byte, n *influxql.BinaryExpr, t
 	case *influxql.StringLiteral:
 		err = tf.Init(name, []byte(key.Val), []byte(value.Val), n.Op != influxql.EQ, false)
 	case *influxql.RegexLiteral:
-		err = tf.Init(name, []byte(key.Val), []byte(value.Val.String()), n.Op != influxql.EQREGEX, true)
-		if regexMatchesEverything(value.Val) {
+		re := is.tagRegex(value.Val)
+		err = tf.Init(name, []byte(key.Val), []byte(re.String()), n.Op != influxql.EQREGEX, true)
+		if regexMatchesEverything(re) {
 			tf.SetRegexMatchAll(true)
 		}
 	case *influxql.VarRef:
